@@ -399,6 +399,7 @@ def run(ctx) -> None:
         ctx.sample(dict(workload="build:prior=A,new=B", abstract_events=[e["ev"] for e in tree_traces[2]["events"]]))
         ctx.sample(dict(workload="create", abstract_events=[e["ev"] for e in cat_traces[0]["events"]][:25]))
         interrupted_creation(ctx, yaw, base, ref_records)
+        interrupted_results(ctx, yaw, base, gens)
         if not quick:
             real_kills(ctx, base, inputs)
     ctx.extra["workloads"] = summary
@@ -453,6 +454,49 @@ def interrupted_creation(ctx, yaw, base, ref_records):
                     n = sum(len(v) for v in got[1]["records"].values())
                     ctx.violation(f"C08|create{',over_old' if prior else ''}|interrupted_by_{exc_cls.__name__}|recovery=open|catalog_opens_with_partial_records",
                                   dict(chunk=k, of=nchunks, records_found=n, records_input=len(df)))
+
+
+def interrupted_results(ctx, yaw, base, gens):
+    """CorrFunc.to_file is brought down (Ctrl-C, or an I/O error such as a full disk) at its n-th HDF5 write call, for
+    every n: the file is closed by the library's context manager and is a VALID but incomplete HDF5 file.  Reading
+    it back must fail or give the complete result - not a CorrFunc with fewer pair counts that samples differently."""
+    import h5py
+
+    cf = gens["new"]
+    orig = h5py.Group.create_dataset
+    for exc_cls in (KeyboardInterrupt, OSError):
+        n = 0
+        while True:
+            path = base / f"intr_cf_{exc_cls.__name__}_{n}.hdf"
+            count = {"k": 0}
+
+            def create_dataset(self, *a, **k):
+                if count["k"] == n:
+                    count["k"] += 1
+                    raise exc_cls("interrupted while writing the result file")
+                count["k"] += 1
+                return orig(self, *a, **k)
+
+            h5py.Group.create_dataset = create_dataset
+            died = False
+            try:
+                cf.to_file(path)
+            except BaseException:  # noqa: BLE001 - the writing 'process' dies here
+                died = True
+            finally:
+                h5py.Group.create_dataset = orig
+            if not died:
+                break           # n is beyond the last write call: the file is complete
+            ctx.evaluated(1, ("interrupted_results", exc_cls.__name__, n))
+            if path.exists():
+                got = attempt(lambda: yaw.CorrFunc.from_file(path))
+                if got[0] == "ok" and not (got[1] == cf):
+                    members = [m for m in ("dd", "dr", "rd", "rr") if getattr(got[1], m) is not None]
+                    ctx.violation(f"C08|cf_tofile|interrupted_by_{exc_cls.__name__}|recovery=read|reads_back_incomplete_result",
+                                  dict(write_call=n, members_read=members, members_written=[m for m in ("dd", "dr", "rd", "rr") if getattr(cf, m) is not None]))
+            n += 1
+            if n > 200:
+                break
 
 
 def real_kills(ctx, base, inputs):
